@@ -26,7 +26,7 @@ class Prop:
             '*); every single-byte substitution at every body position by printable bytes (quick: a seeded subset of '
             'positions × all 95 printable bytes; thorough: every position × all 256 bytes); multi-part messages with '
             'every subset of parts corrupted, lenient and strict; each through parse/assemble/decode of pyais and of '
-            'the model; non-trivial = the sentence parsed')
+            'the model; non-trivial = the sentence parsed ; a correctly checksummed sentence for each of the 128 checksum values; multi-part messages with an empty fragment')
     assumptions = []
 
     def expect_valid(self, line):
